@@ -58,7 +58,7 @@ def regen(ctx):
     tmpd = os.path.join(common.BUILD, "gen-traits-%d" % os.getpid())
     try:
         facts = run_to(ctx.repo, tmpd)
-        with common.Lock("lake"):
+        with common.Lock("gen"), common.Lock("lake"):
             for f in FILES:
                 common.write_if_changed(os.path.join(GEN, f), open(os.path.join(tmpd, f)).read())
         common.write_if_changed(os.path.join(common.BUILD, "facts-traits.json"), json.dumps(facts, indent=1))
